@@ -84,6 +84,7 @@ import (
 type vhReplaySpec struct {
 	Params  map[string]int `json:"params"`
 	Vectors [][]uint64     `json:"vectors"`
+	Repeat  int            `json:"repeat"`
 }
 
 func TestVHReplay(t *testing.T) {
@@ -101,6 +102,7 @@ func TestVHReplay(t *testing.T) {
 	out, _ := os.Create(os.Getenv("VH_OUT"))
 	defer out.Close()
 	for i, vec := range spec.Vectors {
+		for rep := 0; rep < spec.Repeat || rep == 0; rep++ {
 		vhReset(vec)
 		func() {
 			defer func() {
@@ -118,6 +120,10 @@ func TestVHReplay(t *testing.T) {
 			out.Sync()
 			__ENTRY__()
 		}()
+		if len(vhFailed) > 0 || rep+1 >= spec.Repeat {
+			break
+		}
+		}
 		fmt.Fprintf(out, "VEC %d :: %s\\n", i, strings.Join(vhObserved, " ;; "))
 		out.Sync()
 	}
@@ -125,7 +131,7 @@ func TestVHReplay(t *testing.T) {
 '''
 
 
-def native_run(entry, params, vectors, dropped_files, timeout_s=60, race=False):
+def native_run(entry, params, vectors, dropped_files, timeout_s=60, race=False, repeat=1):
     """Runs the harness entry natively on each vector. Returns list of observation strings (or 'HANG'/'CRASH')."""
     tmp = tempfile.mkdtemp(prefix="vh-replay-")
     try:
@@ -140,7 +146,7 @@ def native_run(entry, params, vectors, dropped_files, timeout_s=60, race=False):
         ov = os.path.join(tmp, "overlay.json")
         json.dump({"Replace": repl}, open(ov, "w"))
         spec = os.path.join(tmp, "spec.json")
-        json.dump({"params": params or {}, "vectors": vectors}, open(spec, "w"))
+        json.dump({"params": params or {}, "vectors": vectors, "repeat": repeat}, open(spec, "w"))
         outf = os.path.join(tmp, "out.txt")
         env = dict(ENV, VH_REPLAY=spec, VH_OUT=outf)
         cmd = ["go", "test", "-vet=off", "-count=1", "-overlay", ov, "-run", "^TestVHReplay$",
@@ -176,7 +182,7 @@ def native_run(entry, params, vectors, dropped_files, timeout_s=60, race=False):
             # vectors after it did not run: run them in a fresh process
             rest_idx = [i for i in range(started + 1, len(vectors))]
             if rest_idx:
-                sub, _, _ = native_run(entry, params, [vectors[i] for i in rest_idx], dropped_files, timeout_s, race)
+                sub, _, _ = native_run(entry, params, [vectors[i] for i in rest_idx], dropped_files, timeout_s, race, repeat)
                 for i, o in zip(rest_idx, sub):
                     obs[i] = o
         return obs, log, msgs
@@ -358,7 +364,7 @@ def check_property(pid, tier, seed):
             nat, log, msgs = ([], "", {})
             if vectors:
                 nat, log, msgs = native_run(ob["entry"], used, vectors, dropped_files,
-                                            timeout_s=ob.get("native_timeout_s", 40))
+                                            timeout_s=ob.get("native_timeout_s", 40), repeat=ob.get("native_repeat", 1))
             eng = engine_concrete(ob["entry"], used, vectors, opts) if vectors else []
             confirmed_here = []
             for i, v in enumerate(todo):
